@@ -1,0 +1,78 @@
+//! Verification hooks, compiled only with `--cfg sonic_rs_verif`.
+//!
+//! `AtomicPtr` is a drop-in shim for `std::sync::atomic::AtomicPtr` that calls a registered
+//! scheduler callback before every `load` / compare-exchange, so that a harness can replay a
+//! chosen interleaving of the lock-free publish-once caches of `LazyValue` / `OwnedLazyValue`
+//! and can make `compare_exchange_weak` fail spuriously (as LL/SC targets are allowed to).
+
+use std::sync::{
+    atomic::{AtomicPtr as StdAtomicPtr, Ordering},
+    Arc, RwLock,
+};
+
+/// The atomic operation about to be executed.
+#[derive(Clone, Copy, Debug, PartialEq, Eq)]
+pub enum Point {
+    Load,
+    CompareExchangeWeak,
+    CompareExchange,
+}
+
+/// Called before each atomic operation; returning `true` at a `CompareExchangeWeak` point makes
+/// it fail spuriously (it then reports the current value without storing).
+pub type Hook = dyn Fn(Point) -> bool + Send + Sync;
+
+static HOOK: RwLock<Option<Arc<Hook>>> = RwLock::new(None);
+
+pub fn set_hook(hook: Option<Arc<Hook>>) {
+    *HOOK.write().unwrap() = hook;
+}
+
+fn call(point: Point) -> bool {
+    let hook = HOOK.read().unwrap().clone();
+    match hook {
+        Some(h) => h(point),
+        None => false,
+    }
+}
+
+pub struct AtomicPtr<T>(StdAtomicPtr<T>);
+
+impl<T> AtomicPtr<T> {
+    pub fn new(p: *mut T) -> Self {
+        Self(StdAtomicPtr::new(p))
+    }
+
+    pub fn load(&self, order: Ordering) -> *mut T {
+        call(Point::Load);
+        self.0.load(order)
+    }
+
+    pub fn get_mut(&mut self) -> &mut *mut T {
+        self.0.get_mut()
+    }
+
+    pub fn compare_exchange_weak(
+        &self,
+        current: *mut T,
+        new: *mut T,
+        success: Ordering,
+        failure: Ordering,
+    ) -> Result<*mut T, *mut T> {
+        if call(Point::CompareExchangeWeak) {
+            return Err(self.0.load(failure));
+        }
+        self.0.compare_exchange(current, new, success, failure)
+    }
+
+    pub fn compare_exchange(
+        &self,
+        current: *mut T,
+        new: *mut T,
+        success: Ordering,
+        failure: Ordering,
+    ) -> Result<*mut T, *mut T> {
+        call(Point::CompareExchange);
+        self.0.compare_exchange(current, new, success, failure)
+    }
+}
